@@ -112,6 +112,19 @@ def axioms_check(ctx, c, outs):
         return "contains_inversion disagrees with the operations"
     if bool(G.is_proper) != bool((np.linalg.det(M) > 0).all()):
         return "is_proper disagrees with the operations"
+    # the Laue group and the proper subgroup as OBJECTS answer the same queries consistently
+    Lg = G.laue
+    if not bool(Lg.contains_inversion) or bool(Lg.is_proper):
+        return "Laue group object: contains_inversion / is_proper disagree with its operations"
+    if not set_eq(cart_ops(Lg.proper_subgroup), L[np.linalg.det(L) > 0]):
+        return (f"proper subgroup of the Laue group of {c['name']} ('{Lg.proper_subgroup.name}') is not exactly the proper "
+                "operations of the Laue group")
+    if not set_eq(cart_ops(G.laue_proper_subgroup), L[np.linalg.det(L) > 0]):
+        return f"laue_proper_subgroup of {c['name']} ('{G.laue_proper_subgroup.name}') is not the proper part of its Laue group"
+    for H in groups():
+        listed_l = any(s.name == H.name for s in Lg.subgroups)
+        if listed_l != subset(cart_ops(H), L):
+            return f"subgroups query of the Laue group of {c['name']}: {H.name} listed={listed_l} but inclusion={not listed_l}"
     for H in groups():
         listed = any(H is s or (s.name == H.name) for s in G.subgroups)
         if listed != subset(cart_ops(H), M):
@@ -156,19 +169,91 @@ def sg_check(ctx, c, outs):
     lat = [f for f in FAMILY_LATTICE if f[0] <= n <= f[1]][0][2:]
     with warnings.catch_warnings():
         warnings.simplefilter("ignore")
-        ph = Phase(space_group=n, structure=Structure(lattice=Lattice(*lat)))
+        how = c.get("how", "init")
+        st = Structure(lattice=Lattice(*lat))
+        if how == "init":
+            ph = Phase(space_group=n, structure=st)
+        elif how == "pg_then_sg":          # explicit point group first, space group assigned afterwards
+            ph = Phase(point_group=c.get("pg", "432"), structure=st)
+            ph.space_group = n
+        elif how == "sg_then_sg":          # space group changed on an existing phase
+            ph = Phase(space_group=c.get("other", 225), structure=st)
+            ph.space_group = n
+        elif how == "both_then_sg":        # consistent pair at construction, space group changed afterwards
+            ph = Phase(space_group=c.get("other", 225), point_group=c.get("pg", "m-3m"), structure=st)
+            ph.space_group = n
+        else:
+            raise ValueError(how)
         B = ph.structure.lattice.base
         rots = np.array([op.R for op in GetSpaceGroup(n).iter_symops()])
     cart = np.einsum("ij,njk,kl->nil", B.T, rots, np.linalg.inv(B).T)
     M = cart_ops(ph.point_group)
     if not set_eq(M, cart, 1e-8):
         missing = [m.round(3).tolist() for m in cart if not subset(m[None], M, 1e-8)][:1]
-        return (f"space group {n}: point group '{ph.point_group.name}' is not the set of rotational parts in the "
-                f"phase frame; e.g. rotational part {missing} is not in the point group")
+        return (f"space group {n} (phase built by '{c.get('how', 'init')}'): point group '{ph.point_group.name}' is not the set "
+                f"of rotational parts in the phase frame; e.g. rotational part {missing} is not in the point group")
+    return None
+
+
+QUERY_SCRIPT = r"""
+import json, sys, warnings
+import numpy as np
+warnings.simplefilter("ignore")
+from orix.quaternion import symmetry as S
+seed = int(sys.argv[1])
+rng = np.random.default_rng(seed)
+def ops(G):
+    m = G.to_matrix().reshape(-1, 3, 3)
+    return np.where(G.improper.reshape(-1), -1.0, 1.0)[:, None, None] * m
+def sub(A, B):
+    A, B = A.reshape(-1, 9), B.reshape(-1, 9)
+    return bool((np.abs(A[:, None] - B[None]).max(-1) <= 1e-9).any(1).all())
+named = list(S._groups)
+objs = [("named", i) for i in range(len(named))] + [("laue", i) for i in range(len(named))]
+order = rng.permutation(len(objs))
+bad = []
+for j in order:
+    kind, i = objs[j]
+    G = named[i] if kind == "named" else named[i].laue
+    M = ops(G)
+    P = M[np.linalg.det(M) > 0]
+    if bool(G.contains_inversion) != sub(-np.eye(3)[None], M):
+        bad.append([kind, named[i].name, "contains_inversion"])
+    if bool(G.is_proper) != bool((np.linalg.det(M) > 0).all()):
+        bad.append([kind, named[i].name, "is_proper"])
+    ps = ops(G.proper_subgroup)
+    if not (sub(ps, P) and sub(P, ps)):
+        bad.append([kind, named[i].name, "proper_subgroup=" + str(G.proper_subgroup.name)])
+    listed = set(h.name for h in G.subgroups)
+    for H in named:
+        if (H.name in listed) != sub(ops(H), M):
+            bad.append([kind, named[i].name, "subgroups:" + H.name])
+            break
+print(json.dumps(bad))
+"""
+
+
+def order_check(ctx, c, outs):
+    """the subgroup / inversion / properness queries in a FRESH interpreter, named groups and Laue-group objects
+    interleaved in a seeded random order (answers must not depend on which object was asked first)"""
+    import json as _json
+    import os
+    import subprocess
+    import sys
+    env = dict(os.environ)
+    p = subprocess.run([sys.executable, "-c", QUERY_SCRIPT, str(c["seed"])], capture_output=True, text=True, env=env,
+                       timeout=1200)
+    if p.returncode != 0:
+        return f"query script failed: {p.stderr[-300:]}"
+    bad = _json.loads(p.stdout.strip().split("\n")[-1])
+    if bad:
+        return (f"queries disagree with set inclusion when asked in the order of seed {c['seed']}: {bad[:4]} "
+                f"({len(bad)} in total)")
     return None
 
 
 SITES = {
+    "query_order": sites.Site("query_order", "prop", order_check),
     "table": sites.Site("table", "corr", table_check, table_lines),
     "group_axioms": sites.Site("group_axioms", "prop", axioms_check),
     "name_ops": sites.Site("name_ops", "prop", name_check, name_lines),
@@ -203,6 +288,17 @@ def generate(ctx):
     for n in range(1, 231):
         ctx.count("spacegroup", ("sg", n), nontrivial=n > 1)
         yield "spacegroup", {"number": n}
+    # the same clause for phases whose space group is assigned after construction
+    hows = ["pg_then_sg", "sg_then_sg", "both_then_sg"]
+    nums = [int(x) for x in ctx.rng.choice(np.arange(1, 231), 24 if ctx.tier == "quick" else 230, replace=False)]
+    for j, n in enumerate(nums):
+        how = hows[j % 3]
+        ctx.count("spacegroup/" + how, ("sgh", how, n))
+        yield "spacegroup", {"number": n, "how": how, "pg": ["432", "m-3m", "6/mmm", "1"][j % 4] if how == "pg_then_sg" else "m-3m",
+                             "other": 225}
+    for r in range(2 if ctx.tier == "quick" else 8):
+        ctx.count("query_order", ("qo", r))
+        yield "query_order", {"seed": int(ctx.rng.integers(1 << 30))}
     ctx.sample({"site": "spacegroup", "number": 194})
     ctx.extra["exhaustive"] = True
 
